@@ -236,6 +236,63 @@ func c08(c *Ctx) {
 		}
 	}
 
+	// ---- R08.A: the readers admit every frame the format carries, up to the 2^20 bytes the property names ------
+	r.Rule("R08.A", "the mode readers allocate and read the body for every frame length the format carries up to 2^20 bytes: no refusal keyed on the announced length is in the way", 2)
+	for _, m := range []string{"*abridged", "*intermediate"} {
+		rd := c.fn("R08.A", load.ModePkg, m, "ReadMsg")
+		if rd == nil {
+			continue
+		}
+		var body *ssa.MakeSlice
+		for _, b := range rd.Blocks {
+			for _, in := range b.Instrs {
+				if ms, ok := in.(*ssa.MakeSlice); ok {
+					if _, isConst := an.ConstInt(ms.Len); !isConst {
+						body = ms
+					}
+				}
+			}
+		}
+		key := "admit:" + strings.TrimPrefix(m, "*")
+		if body == nil {
+			r.Undecide("R08.A", key, c.pos(rd.Pos()), "the allocation of the message body was not found")
+			continue
+		}
+		var bad []string
+		for _, size := range []int64{0, 4, 504, 508, 1024, 65536, 262144, 262148, 1 << 20} {
+			words := size / 4
+			atom := func(v ssa.Value) (int64, bool) {
+				if call, ok := v.(*ssa.Call); ok && strings.HasSuffix(an.CalleeName(call.Common()), "littleEndian).Uint32") {
+					if m == "*abridged" {
+						return words, true
+					}
+					return size, true
+				}
+				if ld, ok := v.(*ssa.UnOp); ok && m == "*abridged" {
+					if ia, ok := ld.X.(*ssa.IndexAddr); ok {
+						if k, ok := an.ConstInt(ia.Index); ok && k == 0 {
+							if bt, ok := ld.Type().Underlying().(*types.Basic); ok && bt.Kind() == types.Uint8 {
+								if words < 127 {
+									return words, true
+								}
+								return 0x7f, true
+							}
+						}
+					}
+				}
+				return 0, false
+			}
+			got, ok, reach := evalAt(rd, body.Len, atom)
+			switch {
+			case !reach[body.Block()]:
+				bad = append(bad, sprintf("a frame of %d bytes is refused before its body is read", size))
+			case !ok || got != size:
+				bad = append(bad, sprintf("a frame announced as %d bytes gets a body buffer of %d", size, got))
+			}
+		}
+		r.Check(len(bad) == 0, "R08.A", key, c.pos(body.Pos()), "9 lengths from 0 to 2^20 evaluated: "+strings.Join(bad, "; "))
+	}
+
 	// ---- R08.E ----------------------------------------------------------------------------------
 	type layer struct{ pkg, recv, name, call string }
 	for _, l := range []layer{
